@@ -1,7 +1,131 @@
 (** C01 — property theorems only. *)
-From Coq Require Import List ZArith.
-From C33 Require Import C01.Keys C01.Model C01.Store C01.Spec C01.Proofs.
+From Coq Require Import List ZArith NArith Bool.
+From C33 Require Import Lib.Harness C01.Keys C01.Model C01.Store C01.Spec C01.Inv
+  C01.Proofs C01.ProofsStore C01.ProofsAvl C01.ProofsRange C01.ProofsTop.
+Import ListNotations.
+Open Scope Z_scope.
 
-Theorem C01_rotate_right_elements : forall t t', rotate_right t = Some t' -> elements t' = elements t.
-Proof. exact rotate_right_elements. Qed.
-Print Assumptions C01_rotate_right_elements.
+(** [set] on an ordered tree with correct stored heights/sizes never panics,
+    keeps both invariants, acts on the in-order leaves as insertion into the
+    sorted association list, and an update leaves height and size alone. *)
+Theorem C01_set_preserves_order : forall t k v,
+  ordered t -> sized t ->
+  exists t' u, set t k v = Some (t', u) /\ ordered t' /\ sized t' /\
+               elements t' = ins k v (elements t) /\
+               (u = true -> height t' = height t /\ size t' = size t).
+Proof. exact set_inv. Qed.
+Print Assumptions C01_set_preserves_order.
+
+(** AVL balance (|left height - right height| <= 1 everywhere) is preserved. *)
+Theorem C01_set_preserves_avl : forall t k v t' u,
+  ordered t -> sized t -> balanced t -> set t k v = Some (t', u) ->
+  balanced t' /\ height t <= height t' <= height t + 1 /\ (u = true -> height t' = height t).
+Proof. exact set_balanced. Qed.
+Print Assumptions C01_set_preserves_avl.
+
+Theorem C01_get_set : forall t k v t' u k',
+  ordered t -> sized t -> set t k v = Some (t', u) ->
+  snd (get t' k') = if beq k k' then Some v else snd (get t k').
+Proof. exact get_set. Qed.
+Print Assumptions C01_get_set.
+
+Theorem C01_get_is_lookup : forall t k, ordered t -> snd (get t k) = sget (elements t) k.
+Proof. exact get_elements. Qed.
+Print Assumptions C01_get_is_lookup.
+
+(** traverseInRange with any leaf callback = feeding it the in-range leaves in
+    the requested order until it asks to stop. *)
+Theorem C01_traverse_range : forall (S : Type) (fn : S -> bytes -> bytes -> S * bool)
+  t start endk asc incl s,
+  ordered t ->
+  traverse_in_range (leaf_cb fn) start endk asc incl t s =
+  fold_stop fn (srange (elements t) start endk asc incl) s.
+Proof. exact @traverse_spec. Qed.
+Print Assumptions C01_traverse_range.
+
+Theorem C01_iterate_range : forall t lim start endk asc incl,
+  ordered t ->
+  collect_range lim start endk asc incl t = srange_lim lim (elements t) start endk asc incl.
+Proof. exact collect_range_spec. Qed.
+Print Assumptions C01_iterate_range.
+
+(** On keyed trees the symbolic root hash identifies the tree (the inner key is
+    not hashed but is determined by the right sub-tree). *)
+Theorem C01_root_identifies_tree : forall t1 t2, keyed t1 -> keyed t2 -> thash t1 = thash t2 -> t1 = t2.
+Proof. exact thash_inj. Qed.
+Print Assumptions C01_root_identifies_tree.
+
+(** Saving only adds bindings; existing hashes keep their content. *)
+Theorem C01_save_monotone : forall t d,
+  db_wf d -> keyed t ->
+  db_wf (save d t) /\ stored (save d t) t /\ db_extends d (save d t).
+Proof. exact save_spec. Qed.
+Print Assumptions C01_save_monotone.
+
+Theorem C01_load_save : forall t d,
+  db_wf d -> ordered t -> sized t -> load_root (save d t) (thash t) = Some t.
+Proof. exact load_save. Qed.
+Print Assumptions C01_load_save.
+
+(** The specification side: the state is strictly sorted by key and its lookup
+    is the most recent write. *)
+Theorem C01_state_sorted : forall bs, ksorted (state bs).
+Proof. exact state_sorted. Qed.
+Print Assumptions C01_state_sorted.
+
+Theorem C01_state_last_write : forall bs k, sget (state bs) k = last_write (concat bs) k None.
+Proof. exact state_last_write. Qed.
+Print Assumptions C01_state_last_write.
+
+(** Top theorem: for every history of batches and every i <= j, reading any key
+    or any range at the root committed by batch i, from the database as it is
+    after batch j, gives the specification's state after batch i.  (Closing and
+    reopening the store is the identity on the database value.) *)
+Theorem C01_versioned_map : forall bs i j, (i <= j)%nat ->
+  exists di ri dj rj,
+    history (firstn i bs) = Some (di, ri) /\
+    history (firstn j bs) = Some (dj, rj) /\
+    (forall k, get_at dj ri k = Some (sget (state (firstn i bs)) k)) /\
+    (forall lim start endk asc incl,
+        range_at dj ri lim start endk asc incl =
+        Some (srange_lim lim (state (firstn i bs)) start endk asc incl)).
+Proof. exact versioned_map. Qed.
+Print Assumptions C01_versioned_map.
+
+(** Non-vacuity. *)
+From Coq Require Strings.String.
+Import Coq.Strings.String.StringSyntax.
+Local Open Scope string_scope.
+Definition ex_tree : tree :=
+  Node (bs "b") 2 3 (Leaf (bs "a") (bs "1"))
+       (Node (bs "c") 1 2 (Leaf (bs "b") (bs "2")) (Leaf (bs "c") (bs "3"))).
+
+Example C01_ex_tree_invariants : ordered ex_tree /\ sized ex_tree /\ balanced ex_tree.
+Proof.
+  unfold ex_tree. split; [|split].
+  - simpl. repeat split; auto;
+      intros x Hx; repeat (destruct Hx as [Hx|Hx]; [subst x; reflexivity|]); destruct Hx.
+  - simpl. repeat split; auto.
+  - simpl. repeat split; auto; discriminate.
+Qed.
+
+Example C01_ex_set_rotates :
+  option_map (fun p => (height (fst p), size (fst p), snd p)) (set ex_tree (bs "d") (bs "4"))
+  = Some (2, 4, false).
+Proof. vm_compute. reflexivity. Qed.
+
+Definition ex_history : list batch :=
+  [ [(bs "k1", bs "v1"); (bs "k2", bs "v2"); (bs "", bs "e")];
+    [(bs "k1", bs "w1"); (bs "k0", bs "v0")];
+    [(bs "k2", bs "x2")] ].
+
+Example C01_ex_history_reads :
+  match history ex_history, history (firstn 1 ex_history) with
+  | Some (d3, _), Some (_, r1) =>
+      get_at d3 r1 (bs "k1") = Some (Some (bs "v1")) /\
+      get_at d3 r1 (bs "k0") = Some None /\
+      range_at d3 r1 None (Some (bs "k1")) None true false
+        = Some ([(bs "k1", bs "v1"); (bs "k2", bs "v2")], false)
+  | _, _ => False
+  end.
+Proof. vm_compute. repeat split; reflexivity. Qed.
